@@ -157,12 +157,19 @@ def gen_cases(ctx):
     pool = ['a', '\u00e9', '\u20ac', '\U0001d11e', '\n', '\r', '\r\n', '"', ',', '#', '\ufeff']
     for _ in range(20 if ctx.tier == 'quick' else 150):
         samples.append(''.join(rng.choice(pool) for _ in range(rng.randint(1, 4))))
+    toks = ['\ufeff', 'a', '\n', '\r', '"', ',']
+    for n in range(1, 4 if ctx.tier == 'quick' else 5):
+        for t in itertools.product(toks, repeat=n):
+            if '\ufeff' in t:
+                samples.append(''.join(t))       # a BOM on the first line, on later lines, twice
     ucases = []
     for s in samples:
         data = list(s.encode('utf-8'))
         if len(data) > (9 if ctx.tier == 'quick' else 11):
             continue
         for c in cfgs:
+            if len(samples) > 100 and len(data) > 6 and (c['comment'] == '#') != (c['policy'] in ('simple', 'quoted_rfc')):
+                continue
             for enc in ('utf-8', 'binary'):
                 if ctx.tier == 'quick' and enc == 'binary' and c['policy'] in ('simple', 'monocolumn'):
                     continue
